@@ -384,4 +384,6 @@ WITNESSES = [
      "new": "\tif (spki_table->update_fp)\n\t\ttommy_list_insert_tail(&spki_table->list, &entry->list_node, entry);\n\tpthread_rwlock_unlock(&spki_table->lock);\n\tspki_table_notify_clients(spki_table, spki_record, true);"},
     {"id": "C10.w12-copy-omits-socket", "rule": "C10.R2", "file": HT,
      "old": "\tspki_r->asn = key_e->asn;\n\tspki_r->socket = key_e->socket;", "new": "\tspki_r->asn = key_e->asn;"},
+    {"id": "C10.w-swap-copies-the-callback", "rule": "C10.R6", "file": HT,
+     "old": "\tmemcpy(&b->list, &tmp_list, sizeof(tmp_list));\n", "new": "\tmemcpy(&b->list, &tmp_list, sizeof(tmp_list));\n\tb->update_fp = a->update_fp;\n"},
 ]
